@@ -101,7 +101,8 @@ def struct_layout(body, structs):
 
 
 class Leaf:
-    def __init__(self, pc, ret, store, entry, calls, trace, pc_raw=None, offs=None, env=None):
+    def __init__(self, pc, ret, store, entry, calls, trace, pc_raw=None, offs=None, env=None, reads=None):
+        self.reads = reads or []
         self.env = env or {}
         self.offs = offs or {}
         self.pc_raw = pc_raw if pc_raw is not None else pc
@@ -121,6 +122,7 @@ class State:
         self.dirty = set()   # bases with a symbolic-offset store
         self.pc = []
         self.pc_raw = []
+        self.reads = []
         self.calls = []
         self.trace = []
         self.nalloca = 0
@@ -137,6 +139,7 @@ class State:
         s.dirty = set(self.dirty)
         s.pc = list(self.pc)
         s.pc_raw = list(self.pc_raw)
+        s.reads = list(self.reads)
         s.calls = list(self.calls)
         s.trace = list(self.trace)
         s.nalloca = self.nalloca
@@ -167,7 +170,7 @@ class Interp:
         st = st or State()
         leaves = []
         for (s, r) in self._run_fn(fn, args, st, 0):
-            leaves.append(Leaf(s.pc, r, s.store, dict(self.entry_syms), s.calls, s.trace, s.pc_raw, s.offs, getattr(s, 'top_env', None)))
+            leaves.append(Leaf(s.pc, r, s.store, dict(self.entry_syms), s.calls, s.trace, s.pc_raw, s.offs, getattr(s, 'top_env', None), s.reads))
         return leaves
 
     # ---- function execution: generator of (state, retval)
@@ -412,6 +415,7 @@ class Interp:
             return TOP  # uninitialised local
         if ek not in self.entry_syms:
             self.entry_syms[ek] = self.dom.entry(p.base, p.off, ty)
+        st.reads.append((p.base, p.off, repr(ty)))
         return self.entry_syms[ek]
 
     def store(self, p, v, ty, st):
